@@ -2,7 +2,7 @@
     Property theorems only, about the definitions REGENERATED from
     ibicus/utils/_running_window_mode.py (Gen/GenWindows.v). *)
 From Coq Require Import ZArith List Bool Sorted.
-From IV Require Import NP GenWindows C07_proofs Grid Driver Driver_proofs Driver_corollaries YearsDriver_proofs DriverSkip Calendar Calendar_proofs C07_calendar MonthsDriver_proofs.
+From IV Require Import NP GenWindows C07_proofs Grid Driver Driver_proofs Driver_corollaries YearsDriver_proofs DriverSkip Calendar Calendar_proofs C07_calendar MonthsDriver_proofs Calendar_coverage.
 Import ListNotations.
 Open Scope Z_scope.
 
@@ -206,3 +206,30 @@ Theorem C07_isimip_month_mode_spec : forall (T V : Type) (mo mh mf : list Z) (ob
     forall k, (k < length mf)%nat -> nth k out None = value_at T V mo mh mf obs hist fut W k.
 Proof. exact months_driver_spec. Qed.
 Print Assumptions C07_isimip_month_mode_spec.
+
+(** when does the loop skip a window?  Never, unless the days of the year present have a gap between their minimum
+    and maximum ... *)
+Theorem C07_centre_adjusts_something : forall S days c, 0 < S -> S mod 2 = 1 -> days <> [] ->
+  (forall d, In d days -> 1 <= d <= 366) -> no_gap days ->
+  In c (days_window_centers S days) -> days_indices_to_adjust S days c <> [].
+Proof. exact centre_adjusts_something. Qed.
+Print Assumptions C07_centre_adjusts_something.
+
+(** ... and a series of at least 366 consecutive days has none (every day 1..365 occurs), so there nothing is
+    skipped; only a sub-annual series crossing the turn of the year has skipped windows (the D20 witness) *)
+Theorem C07_full_year_coverage : forall n y d x, (366 <= n)%nat -> 1 <= d <= year_len y -> 1 <= x <= 365 ->
+  In x (days_of_year_of (dates_from n (y, d))).
+Proof. exact full_year_coverage. Qed.
+Print Assumptions C07_full_year_coverage.
+
+Theorem C07_long_series_nothing_skipped : forall S n y m d, 0 < S -> S mod 2 = 1 -> (366 <= n)%nat -> valid_date y m d ->
+  let days := days_of_year_of (consecutive_dates n y m d) in
+  evaluated_centres S days = days_window_centers S days.
+Proof. exact long_series_nothing_skipped. Qed.
+Print Assumptions C07_long_series_nothing_skipped.
+
+Theorem C07_short_series_crossing_the_year_skips :
+  let days := days_of_year_of (consecutive_dates 40 2017 11 26) in
+  evaluated_centres 3 days <> days_window_centers 3 days /\ (length (evaluated_centres 3 days) < length (days_window_centers 3 days))%nat.
+Proof. exact short_series_skips. Qed.
+Print Assumptions C07_short_series_crossing_the_year_skips.
